@@ -453,7 +453,7 @@ def C19(ctx):
         ctx.run(cases, nontrivial=nt, runtime=False, check=True, show=True)
     m = ctx.export('FamilyM(p, {1, 2, 3})', extends='WireShow', caseop='CaseShow', pre_sample=80 if ctx.quick else 2500)
     ctx.run(m, nontrivial=nt, runtime=False, check=True, show=True)
-    cli.run(ctx, (False, False, False, True), 15 if ctx.quick else 150, 10 if ctx.quick else 20, focus_check=150 if ctx.quick else 1500)
+    cli.run(ctx, (False, False, False, True), 15 if ctx.quick else 150, 10 if ctx.quick else 20, focus_check=300 if ctx.quick else 2500)
 
 
 PROPS = {
